@@ -221,8 +221,15 @@ def run(pid, tier, seed):
             for v in repb["violations"]:
                 if v["property"] == "C03" or v["class"] in ("run_differs_from_model", "panic"):
                     violations.append({**v, "property": "C03"})
+    if pid == "C03":
+        # FOR / NEXT with decimal (non-dyadic) bounds and steps: the specification's rule evaluated in IEEE doubles by the harness
+        fp = os.path.join(wd, "forsteps.json")
+        c.run_vh(["for-steps", str(seed), str(1500 if tier == "quick" else 60000), fp])
+        frep = json.load(open(fp))
+        violations += frep["violations"]
+        cov["for_loops_against_ieee_reference"] = frep["counters"].get("loops", 0)
     if pid == "C01":
-        dv, dn = c.deep_probes(pid, ["paren", "abs", "index", "ifthen", "not", "dimsubs", "implicit"])
+        dv, dn = c.deep_probes(pid, ["paren", "abs", "index", "ifthen", "not", "unary", "notchain", "dimsubs", "implicit"])
         dv2, dn2 = c.deep_probes(pid, ["fnrec-paren", "fnrec-index", "fnmutual-paren"], depths=(5, 30, 60))      # two caps multiplied
         dv, dn = dv + dv2, dn + dn2
         violations += dv
